@@ -509,3 +509,599 @@ Proof.
   destruct (collect fuel None dbg c d t' it') as [[rows o] cx]. cbn [fst snd] in *. exact IH.
 Qed.
 End Flatten.
+
+(* ---------- C: register rule maps ---------- *)
+
+Definition keys (m : rmap) : list reg := map fst m.
+Definition nodup (m : rmap) : Prop := NoDup (keys m).
+Definition same_map (a b : rmap) : Prop := forall r, lookup r a = lookup r b.
+
+Lemma lookup_none_iff r m : lookup r m = None <-> ~ In r (keys m).
+Proof.
+  induction m as [|[r' x] m IH]; cbn [lookup keys map fst In]; [tauto|].
+  destruct (N.eqb_spec r' r) as [->|Hne].
+  - split; [discriminate|]. intros H. exfalso. apply H. auto.
+  - rewrite IH. unfold keys. tauto.
+Qed.
+
+Lemma lookup_some_in r m x : lookup r m = Some x -> In r (keys m).
+Proof.
+  intros H. destruct (in_dec N.eq_dec r (keys m)) as [Hi|Hn]; auto.
+  apply lookup_none_iff in Hn. congruence.
+Qed.
+
+Lemma same_map_refl a : same_map a a. Proof. intros r; reflexivity. Qed.
+Lemma same_map_sym a b : same_map a b -> same_map b a. Proof. intros H r; symmetry; apply H. Qed.
+Lemma same_map_trans a b c : same_map a b -> same_map b c -> same_map a c.
+Proof. intros H1 H2 r. rewrite H1. apply H2. Qed.
+
+Lemma same_map_length a b : nodup a -> nodup b -> same_map a b -> length a = length b.
+Proof.
+  intros Ha Hb Hs.
+  assert (Hincl : forall a b, same_map a b -> incl (keys a) (keys b)).
+  { intros a0 b0 H r Hr. destruct (lookup r a0) eqn:E.
+    - rewrite H in E. eapply lookup_some_in; eauto.
+    - apply lookup_none_iff in E. contradiction. }
+  pose proof (NoDup_incl_length Ha (Hincl a b Hs)) as H1.
+  pose proof (NoDup_incl_length Hb (Hincl b a (same_map_sym _ _ Hs))) as H2.
+  unfold keys in H1, H2. rewrite !map_length in H1, H2. lia.
+Qed.
+
+(* spec-side operations *)
+Lemma keys_remove_notin r m : ~ In r (keys (remove r m)).
+Proof.
+  induction m as [|[r' x] m IH]; cbn [remove filter keys map fst]; [tauto|].
+  destruct (N.eqb_spec r' r) as [->|Hne]; cbn [negb]; [exact IH|].
+  cbn [keys map fst In]. intros [H|H]; [congruence|]. apply IH. exact H.
+Qed.
+
+Lemma keys_remove_incl r m : incl (keys (remove r m)) (keys m).
+Proof.
+  induction m as [|[r' x] m IH]; cbn [remove filter keys map fst]; [apply incl_refl|].
+  destruct (negb (r' =? r)); cbn [map fst].
+  - apply incl_cons; [left; reflexivity|]. apply incl_tl. exact IH.
+  - apply incl_tl. exact IH.
+Qed.
+
+Lemma nodup_remove r m : nodup m -> nodup (remove r m).
+Proof.
+  unfold nodup. induction m as [|[r' x] m IH]; cbn [remove filter keys map fst]; auto.
+  intros H. inversion H as [|? ? Hn Hd]; subst.
+  destruct (negb (r' =? r)); cbn [map fst]; [|apply IH; exact Hd].
+  constructor; [|apply IH; exact Hd].
+  intros Hi. apply Hn. apply (keys_remove_incl r m). exact Hi.
+Qed.
+
+Lemma lookup_remove r r' m : lookup r' (remove r m) = if r =? r' then None else lookup r' m.
+Proof.
+  unfold remove. induction m as [|[k x] m IH]; cbn [filter lookup fst].
+  - destruct (r =? r'); reflexivity.
+  - destruct (N.eqb_spec k r) as [->|Hne]; cbn [negb lookup].
+    + rewrite IH. destruct (N.eqb_spec r r'); reflexivity.
+    + rewrite IH. destruct (N.eqb_spec k r') as [->|Hk]; [|reflexivity].
+      destruct (N.eqb_spec r r'); [congruence|reflexivity].
+Qed.
+
+Lemma lookup_update r o r' m :
+  lookup r' (update r o m) = if r =? r' then o else lookup r' m.
+Proof.
+  destruct o as [x|]; cbn [update].
+  - change (lookup r' ((r, x) :: remove r m)) with (if r =? r' then Some x else lookup r' (remove r m)).
+    rewrite lookup_remove. destruct (r =? r'); reflexivity.
+  - apply lookup_remove.
+Qed.
+
+Lemma nodup_update r o m : nodup m -> nodup (update r o m).
+Proof.
+  intros H. destruct o as [x|]; cbn [update]; [|apply nodup_remove; exact H].
+  unfold nodup. cbn [keys map fst]. constructor; [apply keys_remove_notin|].
+  apply nodup_remove. exact H.
+Qed.
+
+Lemma remove_absent r m : lookup r m = None -> remove r m = m.
+Proof.
+  induction m as [|[k x] m IH]; cbn [remove filter lookup fst]; auto.
+  destruct (N.eqb_spec k r) as [->|Hne]; [discriminate|]. cbn [negb]. intros H. f_equal. apply IH. exact H.
+Qed.
+
+(* model-side operations *)
+Lemma rm_replace_none r x m : rm_replace r x m = None <-> lookup r m = None.
+Proof.
+  induction m as [|[k y] m IH]; cbn [rm_replace lookup]; [tauto|].
+  destruct (k =? r); [split; discriminate|].
+  destruct (rm_replace r x m); [split; [discriminate|]|tauto].
+  intros H. apply IH in H. discriminate.
+Qed.
+
+Lemma rm_replace_some r x m m' :
+  rm_replace r x m = Some m' ->
+  keys m' = keys m /\ (forall r', lookup r' m' = if r =? r' then Some x else lookup r' m) /\
+  lookup r m <> None.
+Proof.
+  revert m'. induction m as [|[k y] m IH]; intros m' H; cbn [rm_replace] in H; [discriminate|].
+  destruct (N.eqb_spec k r) as [->|Hne].
+  - inversion H; subst. cbn [keys map fst lookup]. rewrite N.eqb_refl. repeat split; [|discriminate].
+    intros r'. destruct (r =? r'); reflexivity.
+  - destruct (rm_replace r x m) as [t'|] eqn:E; [|discriminate]. inversion H; subst.
+    destruct (IH t' eq_refl) as (K & L & N0). cbn [keys map fst lookup].
+    repeat split.
+    + f_equal. exact K.
+    + intros r'. rewrite L. destruct (N.eqb_spec k r') as [->|Hk]; [|reflexivity].
+      destruct (N.eqb_spec r r'); [congruence|reflexivity].
+    + destruct (k =? r) eqn:Ek; [apply N.eqb_eq in Ek; congruence|exact N0].
+Qed.
+
+Lemma lookup_app r m m2 :
+  lookup r (m ++ m2) = match lookup r m with Some x => Some x | None => lookup r m2 end.
+Proof.
+  induction m as [|[k y] m IH]; cbn [app lookup]; [reflexivity|].
+  destruct (k =? r); [reflexivity|exact IH].
+Qed.
+
+Lemma keys_app m m2 : keys (m ++ m2) = keys m ++ keys m2.
+Proof. unfold keys. apply map_app. Qed.
+
+(* lookups do not depend on the order when registers are unique *)
+Lemma lookup_perm a b : nodup a -> Permutation a b -> same_map a b.
+Proof.
+  intros Ha Hp. induction Hp as [|[k x] l l' Hp IH|[k1 x1] [k2 x2] l|l l' l'' Hp1 IH1 Hp2 IH2].
+  - apply same_map_refl.
+  - intros r. cbn [lookup]. destruct (k =? r); [reflexivity|].
+    apply IH. unfold nodup in *. cbn [keys map fst] in Ha. inversion Ha; auto.
+  - intros r. cbn [lookup].
+    destruct (N.eqb_spec k2 r) as [->|H2]; destruct (N.eqb_spec k1 r) as [->|H1]; try reflexivity.
+    unfold nodup in Ha. cbn [keys map fst] in Ha. inversion Ha as [|? ? Hn _]; subst.
+    exfalso. apply Hn. left. reflexivity.
+  - eapply same_map_trans; [apply IH1; exact Ha|].
+    apply IH2. unfold nodup, keys in *. eapply Permutation_NoDup; [|exact Ha].
+    apply Permutation_map. exact Hp1.
+Qed.
+
+Lemma rm_clear_perm r m : nodup m -> Permutation (rm_clear r m) (remove r m).
+Proof.
+  induction m as [|[k y] m IH]; intros Hn; cbn [rm_clear remove filter fst]; [constructor|].
+  unfold nodup in Hn. cbn [keys map fst] in Hn. inversion Hn as [|? ? Hk Hd]; subst.
+  destruct (N.eqb_spec k r) as [->|Hne]; cbn [negb].
+  - (* first (and only) match: the last element moves into its slot *)
+    fold (remove r m). rewrite (remove_absent r m) by (apply lookup_none_iff; exact Hk).
+    destruct (rev m) as [|z rt] eqn:Er.
+    + apply (f_equal (@rev _)) in Er. rewrite rev_involutive in Er. subst. constructor.
+    + apply (f_equal (@rev _)) in Er. rewrite rev_involutive in Er. cbn [rev] in Er. subst m.
+      apply Permutation_cons_append.
+  - fold (remove r m). constructor. apply IH. exact Hd.
+Qed.
+
+Lemma rm_clear_spec r m sm :
+  nodup m -> same_map m sm ->
+  same_map (rm_clear r m) (remove r sm) /\ nodup (rm_clear r m).
+Proof.
+  intros Hn Hs. pose proof (rm_clear_perm r m Hn) as Hp. split.
+  - intros r'. rewrite <- (lookup_perm _ _ (nodup_remove r m Hn) (Permutation_sym Hp) r').
+    rewrite !lookup_remove, Hs. reflexivity.
+  - unfold nodup, keys. eapply Permutation_NoDup; [apply Permutation_map, Permutation_sym, Hp|].
+    apply nodup_remove. exact Hn.
+Qed.
+
+Lemma NoDup_snoc {A} (l : list A) (a : A) : NoDup l -> ~ In a l -> NoDup (l ++ [a]).
+Proof.
+  induction l as [|b l IH]; intros Hn Hi; cbn [app].
+  - constructor; [intros []|constructor].
+  - inversion Hn as [|? ? Hb Hd]; subst. constructor.
+    + rewrite in_app_iff. cbn [In]. intros [H|[H|[]]]; [contradiction|]. subst. apply Hi. left. reflexivity.
+    + apply IH; [exact Hd|]. intros H. apply Hi. right. exact H.
+Qed.
+
+Lemma rm_set_spec cap r x m sm :
+  nodup m -> nodup sm -> same_map m sm ->
+  match rm_set cap r x m with
+  | Ok m' => same_map m' (update r (Some x) sm) /\ nodup m' /\
+             (length m' = length m \/ (cap_full cap (length m) = false /\ length m' = S (length m)))
+  | Err e => e = ETooManyRegisterRules /\ cap_full cap (length m) = true /\
+             length (update r (Some x) sm) = S (length m)
+  | Panic => False
+  | OutOfFuel => False
+  end.
+Proof.
+  intros Hn Hsn Hs. unfold rm_set.
+  destruct (rm_replace r x m) as [m'|] eqn:E.
+  - destruct (rm_replace_some _ _ _ _ E) as (K & L & _). repeat split.
+    + intros r'. rewrite L, lookup_update, Hs. reflexivity.
+    + unfold nodup. rewrite K. exact Hn.
+    + left. apply (f_equal (@length _)) in K. unfold keys in K. rewrite !map_length in K. exact K.
+  - apply rm_replace_none in E.
+    destruct (cap_full cap (length m)) eqn:Ef.
+    + repeat split. cbn [update length]. rewrite remove_absent by (rewrite <- Hs; exact E).
+      f_equal. symmetry. apply same_map_length; auto.
+    + repeat split.
+      * intros r'. rewrite lookup_app, lookup_update, <- Hs. cbn [lookup].
+        destruct (N.eqb_spec r r') as [->|Hne]; [rewrite E; reflexivity|].
+        destruct (lookup r' m); reflexivity.
+      * unfold nodup. rewrite keys_app. cbn [keys map fst].
+        apply NoDup_snoc; [exact Hn|]. apply lookup_none_iff. exact E.
+      * right. split; [reflexivity|]. rewrite app_length. cbn [length]. lia.
+Qed.
+
+(* ---------- D: arithmetic of factored offsets and addresses ---------- *)
+
+Lemma pow64_N : Z.of_N (2 ^ 64) = 18446744073709551616%Z. Proof. reflexivity. Qed.
+
+Lemma to_i64_mod (x : N) :
+  (to_i64 x mod 18446744073709551616 = Z.of_N x mod 18446744073709551616)%Z.
+Proof.
+  unfold to_i64, to_signed, wrapN.
+  assert (Hm : Z.of_N (x mod 2 ^ 64) = (Z.of_N x mod 18446744073709551616)%Z).
+  { rewrite N2Z.inj_mod. rewrite pow64_N. reflexivity. }
+  destruct (x mod 2 ^ 64 <? 2 ^ (64 - 1)).
+  - rewrite Hm. apply Z.mod_mod. lia.
+  - rewrite Hm, pow64_N.
+    replace (Z.of_N x mod 18446744073709551616 - 18446744073709551616)%Z
+      with (Z.of_N x mod 18446744073709551616 + (-1) * 18446744073709551616)%Z by lia.
+    rewrite Z_mod_plus_full. apply Z.mod_mod. lia.
+Qed.
+
+Lemma wrap_signed_cong (a b : Z) :
+  (a mod 18446744073709551616 = b mod 18446744073709551616)%Z -> wrap_signed 64 a = wrap_signed 64 b.
+Proof. intros H. unfold wrap_signed, of_signed. rewrite pow64_N, H. reflexivity. Qed.
+
+Lemma wmul_to_i64 (fo : N) (daf : Z) : wmul_i64 (to_i64 fo) daf = wrap_i64 (Z.of_N fo * daf).
+Proof.
+  unfold wmul_i64, wrap_i64. apply wrap_signed_cong.
+  rewrite <- (Z.mul_mod_idemp_l (to_i64 fo)) by lia.
+  rewrite <- (Z.mul_mod_idemp_l (Z.of_N fo)) by lia.
+  rewrite to_i64_mod. reflexivity.
+Qed.
+
+Lemma to_i64_wrap (off : N) : to_i64 off = wrap_i64 (Z.of_N off).
+Proof.
+  unfold wrap_i64, wrap_signed, of_signed, to_i64, to_signed, wrapN.
+  rewrite <- N2Z.inj_mod, N2Z.id. rewrite N.mod_mod by discriminate. reflexivity.
+Qed.
+
+Lemma valid_asize_cases a : valid_asize a = true -> a = 1 \/ a = 2 \/ a = 4 \/ a = 8.
+Proof. unfold valid_asize. lia. Qed.
+
+Lemma add_sized_spec a len size :
+  valid_asize size = true ->
+  add_sized a len size =
+    if 2 ^ (8 * size) <=? a + len then Err EAddressOverflow else Ok (a + len).
+Proof.
+  intros Hv. unfold add_sized, mask_of. cbv zeta.
+  assert (Hp : 1 <= 2 ^ (8 * size) <= two64).
+  { destruct (valid_asize_cases _ Hv) as [-> | [-> | [-> | ->]]]; vm_compute; split; discriminate. }
+  generalize dependent (2 ^ (8 * size)). intros P HP. generalize (a + len). intros S.
+  destruct (two64 <=? S) eqn:E1; destruct (P - 1 <? S) eqn:E2; destruct (P <=? S) eqn:E3;
+    try reflexivity; lia.
+Qed.
+
+Lemma end_address_spec f :
+  valid_asize (f_asize f) = true ->
+  end_address f = spec_end (f_asize f) (f_init f) (f_range f).
+Proof.
+  intros Hv. unfold end_address, wrapping_add_sized, spec_end, mask_of, wrap64.
+  assert (H : forall k x, k <= 64 -> N.land (x mod two64) (2 ^ k - 1) = x mod 2 ^ k).
+  { intros k x Hk. replace (2 ^ k - 1) with (N.ones k) by (rewrite N.ones_equiv, N.pred_sub; reflexivity).
+    rewrite N.land_ones. change two64 with (2 ^ 64).
+    replace 64 with (k + (64 - k)) at 1 by lia. rewrite N.pow_add_r.
+    rewrite N.mod_mul_r by (apply N.pow_nonzero; discriminate).
+    rewrite N.mul_comm, N.mod_add by (apply N.pow_nonzero; discriminate).
+    apply N.mod_mod. apply N.pow_nonzero. discriminate. }
+  apply H. destruct (valid_asize_cases _ Hv) as [-> | [-> | [-> | ->]]]; lia.
+Qed.
+
+(* ---------- E: one instruction — the model's evaluate against spec_step + guard ---------- *)
+
+Lemma cap_full_over cap n : cap_full cap n = over cap (S n).
+Proof. destruct cap as [k|]; cbn [cap_full over]; reflexivity. Qed.
+
+Lemma over_mono cap n n' : (n' <= n)%nat -> over cap n = false -> over cap n' = false.
+Proof. destruct cap as [k|]; cbn [over]; [|reflexivity]. lia. Qed.
+
+Lemma remove_length r m : (length (remove r m) <= length m)%nat.
+Proof.
+  unfold remove, rmap, reg in *. induction m as [|a m IH]; [cbn; lia|].
+  simpl. destruct (negb (fst a =? r)); simpl; lia.
+Qed.
+
+Lemma top_eq cx tp l : c_stack cx = tp :: l -> top cx = Ok tp.
+Proof. unfold top. intros ->. reflexivity. Qed.
+
+Lemma with_top_eq f cx tp l :
+  c_stack cx = tp :: l ->
+  with_top f cx = Ok {| c_stack := f tp :: l; c_initial_rule := c_initial_rule cx; c_init := c_init cx |}.
+Proof. unfold with_top. intros ->. reflexivity. Qed.
+
+Lemma Forall2_len {A B} (P : A -> B -> Prop) l l' : Forall2 P l l' -> length l = length l'.
+Proof. induction 1; cbn [length]; congruence. Qed.
+
+Section Sim.
+Variable c : caps.
+Variable p : sparams.
+
+Definition row_equiv (r : row) (sr : srow) : Prop :=
+  r_start r = sr_start sr /\ r_end r = sr_end sr /\ r_cfa r = sr_cfa sr /\ r_args r = sr_args sr /\
+  (forall g, rm_get g (r_regs r) = lookup g (sr_rules sr)).
+
+(* a model row carries a remembered (or the current) spec entry *)
+Definition entry_rel (r : row) (e : cfa_rule * rmap * N) : Prop :=
+  r_cfa r = fst (fst e) /\ r_args r = snd e /\ same_map (r_regs r) (snd (fst e)) /\
+  nodup (r_regs r) /\ nodup (snd (fst e)) /\ over (max_rules c) (length (snd (fst e))) = false.
+
+(* how the context stores the CIE's initial rules *)
+Definition bottom_rel (ini : option rmap) (cx : ctx) (bottom : list row) : Prop :=
+  match ini with
+  | None => c_init cx = false /\ c_initial_rule cx = None /\ bottom = []
+  | Some m =>
+      c_init cx = true /\ nodup m /\
+      match c_initial_rule cx with
+      | Some None => m = [] /\ bottom = []
+      | Some (Some (r, x)) => same_map m [(r, x)] /\ length m = 1%nat /\ bottom = []
+      | None => exists b, bottom = [b] /\ same_map (r_regs b) m /\ (2 <= length m)%nat
+      end
+  end.
+
+Definition Rcore (ini : option rmap) (t : tbl) (s : sstate) (tp : row) (rest bottom : list row) : Prop :=
+  t_caf t = sp_caf p /\ t_daf t = sp_daf p /\ t_asize t = sp_asize p /\ valid_asize (sp_asize p) = true /\
+  c_stack (t_ctx t) = tp :: rest ++ bottom /\
+  entry_rel tp (s_cfa s, s_rules s, s_args s) /\
+  Forall2 entry_rel rest (s_stack s) /\
+  bottom_rel ini (t_ctx t) bottom /\
+  guard c ini s = Ok tt.
+
+(* the relation while a row is being built: the top row starts at the spec location *)
+Definition R (ini : option rmap) (t : tbl) (s : sstate) : Prop :=
+  exists tp rest bottom, Rcore ini t s tp rest bottom /\ r_start tp = s_loc s.
+(* ... and right after a row was completed: the next row will start at the spec location *)
+Definition Rdone (ini : option rmap) (t : tbl) (s : sstate) : Prop :=
+  exists tp rest bottom, Rcore ini t s tp rest bottom /\ t_next_start t = s_loc s.
+
+Lemma guard_ok_iff ini s :
+  guard c ini s = Ok tt <->
+  over (max_stack c) (stack_occ ini s) = false /\ over (max_rules c) (rules_occ s) = false.
+Proof.
+  unfold guard. destruct (over (max_stack c) (stack_occ ini s)); [split; [discriminate|intros [? _]; discriminate]|].
+  destruct (over (max_rules c) (rules_occ s)); [split; [discriminate|intros [_ ?]; discriminate]|].
+  tauto.
+Qed.
+
+Lemma bottom_len ini cx bottom :
+  bottom_rel ini cx bottom ->
+  length bottom = match ini with Some m => if Nat.leb 2 (length m) then 1%nat else 0%nat | None => 0%nat end /\
+  (length bottom = 1%nat <-> (c_init cx = true /\ c_initial_rule cx = None)).
+Proof.
+  unfold bottom_rel. destruct ini as [m|].
+  - intros (Hi & Hn & H). destruct (c_initial_rule cx) as [[[r x]|]|].
+    + destruct H as (_ & Hl & ->). rewrite Hl. cbn. split; [reflexivity|]. split; [discriminate|intros [_ ?]; discriminate].
+    + destruct H as (-> & ->). cbn. split; [reflexivity|]. split; [discriminate|intros [_ ?]; discriminate].
+    + destruct H as (b & -> & _ & Hl). cbn [length].
+      destruct (Nat.leb 2 (length m)) eqn:E; [|apply Nat.leb_gt in E; lia]. tauto.
+  - intros (Hi & Hr & ->). cbn. split; [reflexivity|]. split; [discriminate|]. rewrite Hi. intros [? _]; discriminate.
+Qed.
+
+Lemma stack_len ini t s tp rest bottom :
+  Rcore ini t s tp rest bottom -> length (c_stack (t_ctx t)) = stack_occ ini s.
+Proof.
+  intros (_ & _ & _ & _ & Hst & _ & Hrest & Hbot & _).
+  rewrite Hst. cbn [length]. rewrite app_length.
+  apply Forall2_len in Hrest. apply bottom_len in Hbot. destruct Hbot as (Hb & _).
+  unfold stack_occ. rewrite Hrest, Hb. lia.
+Qed.
+
+(* replacing the top row *)
+Lemma Rcore_top ini t s tp rest bottom tp' s' :
+  Rcore ini t s tp rest bottom ->
+  entry_rel tp' (s_cfa s', s_rules s', s_args s') ->
+  s_stack s' = s_stack s ->
+  over (max_rules c) (rules_occ s') = false ->
+  Rcore ini (with_ctx {| c_stack := tp' :: rest ++ bottom; c_initial_rule := c_initial_rule (t_ctx t);
+                         c_init := c_init (t_ctx t) |} t) s' tp' rest bottom.
+Proof.
+  intros (H1 & H2 & H3 & H4 & Hst & Htop & Hrest & Hbot & Hg) He Hs Ho.
+  unfold Rcore. cbn [t_caf t_daf t_asize t_ctx with_ctx c_stack].
+  refine (conj H1 (conj H2 (conj H3 (conj H4 (conj eq_refl (conj He (conj _ (conj Hbot _)))))))).
+  - rewrite Hs. exact Hrest.
+  - apply guard_ok_iff in Hg. apply guard_ok_iff. split; [|exact Ho].
+    unfold stack_occ in *. rewrite Hs. tauto.
+Qed.
+
+Lemma entry_rel_set_start a r e : entry_rel r e -> entry_rel (set_start a r) e.
+Proof. unfold entry_rel. cbn. tauto. Qed.
+Lemma entry_rel_set_end a r e : entry_rel r e -> entry_rel (set_end a r) e.
+Proof. unfold entry_rel. cbn. tauto. Qed.
+
+Lemma R_top ini t s :
+  R ini t s ->
+  exists tp, top (t_ctx t) = Ok tp /\ r_start tp = s_loc s /\ r_cfa tp = s_cfa s /\ r_args tp = s_args s /\
+             same_map (r_regs tp) (s_rules s).
+Proof.
+  intros (tp & rest & bottom & (_ & _ & _ & _ & Hst & (E1 & E2 & E3 & _) & _) & Hl).
+  exists tp. repeat split; auto. eapply top_eq; eauto.
+Qed.
+
+Lemma guard_same_occ ini s s' :
+  s_stack s' = s_stack s -> length (s_rules s') = length (s_rules s) -> guard c ini s' = guard c ini s.
+Proof. intros H1 H2. unfold guard, stack_occ, rules_occ. rewrite H1, H2. reflexivity. Qed.
+
+(* instructions that only touch cfa / args of the current row *)
+Lemma sim_upd_top ini t s (f : row -> row) (s' : sstate) :
+  R ini t s ->
+  (forall r, r_start (f r) = r_start r /\ r_regs (f r) = r_regs r) ->
+  (forall r, r_cfa r = s_cfa s -> r_args r = s_args s -> r_cfa (f r) = s_cfa s' /\ r_args (f r) = s_args s') ->
+  s_loc s' = s_loc s -> s_rules s' = s_rules s -> s_stack s' = s_stack s ->
+  exists t', t_upd_top f t = Ok (false, t') /\ R ini t' s' /\ guard c ini s' = Ok tt.
+Proof.
+  intros (tp & rest & bottom & HR & Hl) Hf1 Hf2 El Er Es.
+  pose proof HR as (_ & _ & _ & _ & Hst & (E1 & E2 & E3 & E4 & E5 & E6) & _ & _ & Hg).
+  unfold t_upd_top. rewrite (with_top_eq f _ _ _ Hst). cbn [bind].
+  eexists. split; [reflexivity|].
+  destruct (Hf1 tp) as (F1 & F2). destruct (Hf2 tp E1 E2) as (F3 & F4).
+  assert (Hg' : guard c ini s' = Ok tt).
+  { rewrite (guard_same_occ ini s s'); auto. rewrite Er. reflexivity. }
+  split; [|exact Hg'].
+  exists (f tp), rest, bottom. split; [|rewrite F1, El; exact Hl].
+  apply Rcore_top with (tp := tp) (s := s); auto.
+  - unfold entry_rel. cbn [fst snd]. rewrite F2, Er. cbn [fst snd] in *. repeat split; auto.
+  - apply guard_ok_iff in Hg'. tauto.
+Qed.
+
+Lemma sim_set_rule ini t s r x :
+  R ini t s ->
+  match t_set_rule c r x t, guard c ini (set_rule r x s) with
+  | Ok (b, t'), Ok _ => b = false /\ R ini t' (set_rule r x s)
+  | Err e, Err e' => e = e'
+  | _, _ => False
+  end.
+Proof.
+  intros (tp & rest & bottom & HR & Hl).
+  pose proof HR as (_ & _ & _ & _ & Hst & (E1 & E2 & E3 & E4 & E5 & E6) & _ & _ & Hg).
+  cbn [fst snd] in *.
+  unfold t_set_rule, set_register_rule. rewrite (top_eq _ _ _ Hst). cbn [bind].
+  pose proof (rm_set_spec (max_rules c) r x (r_regs tp) (s_rules s) E4 E5 E3) as Hs.
+  apply guard_ok_iff in Hg. destruct Hg as (Hg1 & Hg2).
+  assert (Hlen : length (r_regs tp) = length (s_rules s)) by (apply same_map_length; auto).
+  destruct (rm_set (max_rules c) r x (r_regs tp)) as [m'|e| |]; cbn [bind]; try contradiction.
+  - destruct Hs as (S1 & S2 & S3).
+    rewrite (with_top_eq (set_regs m') _ _ _ Hst). cbn [bind].
+    assert (Hn' : nodup (update r (Some x) (s_rules s))) by (apply nodup_update; exact E5).
+    assert (Hlen' : length m' = length (update r (Some x) (s_rules s))) by (apply same_map_length; auto).
+    assert (Ho : over (max_rules c) (length (update r (Some x) (s_rules s))) = false).
+    { rewrite <- Hlen'. destruct S3 as [S3|(S3 & S4)].
+      - rewrite S3, Hlen. exact Hg2.
+      - rewrite S4, <- cap_full_over. exact S3. }
+    assert (Hg' : guard c ini (set_rule r x s) = Ok tt).
+    { apply guard_ok_iff. split; [exact Hg1|exact Ho]. }
+    rewrite Hg'. split; [reflexivity|].
+    exists (set_regs m' tp), rest, bottom. split; [|exact Hl].
+    apply Rcore_top with (tp := tp) (s := s); auto.
+    unfold entry_rel. cbn [fst snd set_rule with_rules s_cfa s_rules s_args set_regs r_cfa r_args r_regs].
+    repeat split; auto.
+  - destruct Hs as (-> & S2 & S3).
+    unfold guard.
+    change (stack_occ ini (set_rule r x s)) with (stack_occ ini s). rewrite Hg1.
+    change (rules_occ (set_rule r x s)) with (length (update r (Some x) (s_rules s))).
+    rewrite S3, <- cap_full_over, S2. reflexivity.
+Qed.
+
+Lemma sim_clear ini t s r :
+  R ini t s ->
+  exists cx, clear_register_rule r (t_ctx t) = Ok cx /\
+             R ini (with_ctx cx t) (with_rules (remove r (s_rules s)) s) /\
+             guard c ini (with_rules (remove r (s_rules s)) s) = Ok tt.
+Proof.
+  intros (tp & rest & bottom & HR & Hl).
+  pose proof HR as (_ & _ & _ & _ & Hst & (E1 & E2 & E3 & E4 & E5 & E6) & _ & _ & Hg).
+  cbn [fst snd] in *.
+  unfold clear_register_rule. rewrite (top_eq _ _ _ Hst). cbn [bind].
+  rewrite (with_top_eq _ _ _ _ Hst). eexists. split; [reflexivity|].
+  destruct (rm_clear_spec r (r_regs tp) (s_rules s) E4 E3) as (C1 & C2).
+  apply guard_ok_iff in Hg. destruct Hg as (Hg1 & Hg2).
+  assert (Ho : over (max_rules c) (length (remove r (s_rules s))) = false).
+  { eapply over_mono; [apply remove_length|exact Hg2]. }
+  assert (Hg' : guard c ini (with_rules (remove r (s_rules s)) s) = Ok tt).
+  { apply guard_ok_iff. split; [exact Hg1|exact Ho]. }
+  split; [|exact Hg'].
+  exists (set_regs (rm_clear r (r_regs tp)) tp), rest, bottom. split; [|exact Hl].
+  apply Rcore_top with (tp := tp) (s := s); auto.
+  unfold entry_rel. cbn [fst snd with_rules s_cfa s_rules s_args set_regs r_cfa r_args r_regs].
+  repeat split; auto. apply nodup_remove. exact E5.
+Qed.
+
+Lemma last_opt_app {A} (l : list A) (b : A) : last_opt (l ++ [b]) = Some b.
+Proof.
+  induction l as [|a l IH]; [reflexivity|]. cbn [app].
+  destruct (l ++ [b]) eqn:E; [destruct l; discriminate|]. cbn [last_opt]. exact IH.
+Qed.
+
+Lemma sim_get_initial ini t s r :
+  R ini t s ->
+  get_initial_rule (t_ctx t) r =
+    Ok (match ini with None => None | Some m => Some (lookup r m) end).
+Proof.
+  intros (tp & rest & bottom & HR & Hl).
+  pose proof HR as (_ & _ & _ & _ & Hst & _ & _ & Hb & _).
+  unfold get_initial_rule. unfold bottom_rel in Hb. destruct ini as [m|].
+  - destruct Hb as (Hi & Hn & Hb). rewrite Hi. cbn [negb].
+    destruct (c_initial_rule (t_ctx t)) as [[[r' x]|]|].
+    + destruct Hb as (Hm & _ & _). rewrite (Hm r). cbn [lookup].
+      destruct (r' =? r); reflexivity.
+    + destruct Hb as (-> & _). reflexivity.
+    + destruct Hb as (b & -> & Hm & _). rewrite Hst.
+      change (tp :: rest ++ [b]) with ((tp :: rest) ++ [b]). rewrite last_opt_app.
+      unfold rm_get. rewrite (Hm r). reflexivity.
+  - destruct Hb as (Hi & _ & _). rewrite Hi. reflexivity.
+Qed.
+
+Lemma sim_push ini t s :
+  R ini t s ->
+  let s' := {| s_loc := s_loc s; s_cfa := s_cfa s; s_rules := s_rules s; s_args := s_args s;
+               s_stack := (s_cfa s, s_rules s, s_args s) :: s_stack s |} in
+  match push_row c (t_ctx t), guard c ini s' with
+  | Ok cx, Ok _ => R ini (with_ctx cx t) s'
+  | Err e, Err e' => e = e'
+  | _, _ => False
+  end.
+Proof.
+  intros (tp & rest & bottom & HR & Hl) s'.
+  pose proof (stack_len _ _ _ _ _ _ HR) as Hlen.
+  pose proof HR as (H1 & H2 & H3 & H4 & Hst & Htop & Hrest & Hb & Hg).
+  unfold push_row. rewrite (top_eq _ _ _ Hst). cbn [bind].
+  apply guard_ok_iff in Hg. destruct Hg as (Hg1 & Hg2).
+  assert (Hocc : stack_occ ini s' = S (stack_occ ini s)) by (unfold stack_occ, s'; cbn [s_stack length]; lia).
+  unfold guard. rewrite Hocc, <- cap_full_over, <- Hlen.
+  destruct (cap_full (max_stack c) (length (c_stack (t_ctx t)))) eqn:Ef; [reflexivity|].
+  unfold rules_occ. change (s_rules s') with (s_rules s). unfold rules_occ in Hg2. rewrite Hg2.
+  exists tp, (tp :: rest), bottom. split; [|exact Hl].
+  unfold Rcore. cbn [t_caf t_daf t_asize t_ctx with_ctx with_stack c_stack c_init c_initial_rule].
+  refine (conj H1 (conj H2 (conj H3 (conj H4 (conj _ (conj Htop (conj _ (conj Hb _)))))))).
+  - rewrite Hst. reflexivity.
+  - constructor; [exact Htop|exact Hrest].
+  - apply guard_ok_iff. rewrite Hocc, <- cap_full_over, <- Hlen. split; [exact Ef|exact Hg2].
+Qed.
+
+Lemma sim_pop ini t s :
+  R ini t s ->
+  match pop_row (t_ctx t), s_stack s with
+  | Err e, [] => e = EPopWithEmptyStack
+  | Ok cx, (cf, m, a) :: st =>
+      exists e rest', c_stack cx = e :: rest' /\
+        forall start, exists cx2, with_top (set_start start) cx = Ok cx2 /\
+          forall loc, loc = start ->
+          R ini (with_ctx cx2 t) {| s_loc := loc; s_cfa := cf; s_rules := m; s_args := a; s_stack := st |} /\
+          guard c ini {| s_loc := loc; s_cfa := cf; s_rules := m; s_args := a; s_stack := st |} = Ok tt
+  | _, _ => False
+  end.
+Proof.
+  intros (tp & rest & bottom & HR & Hl).
+  pose proof HR as (H1 & H2 & H3 & H4 & Hst & Htop & Hrest & Hb & Hg).
+  destruct (bottom_len _ _ _ Hb) as (Hb1 & Hb2).
+  unfold pop_row. rewrite Hst. cbn [length]. rewrite app_length.
+  assert (Hmin : (if c_init (t_ctx t) && match c_initial_rule (t_ctx t) with None => true | Some _ => false end
+                  then 2%nat else 1%nat) = S (length bottom)).
+  { assert (Hb01 : length bottom = 0%nat \/ length bottom = 1%nat).
+    { rewrite Hb1. destruct ini as [mm|]; [destruct (Nat.leb 2 (length mm))|]; auto. }
+    destruct Hb01 as [Hb0|Hb0].
+    - rewrite Hb0.
+      destruct (c_init (t_ctx t)) eqn:Ei; destruct (c_initial_rule (t_ctx t)) as [o|] eqn:Er; cbn [andb]; auto.
+      exfalso. assert (length bottom = 1%nat) by (apply Hb2; auto). lia.
+    - rewrite Hb0. apply Hb2 in Hb0. destruct Hb0 as [Ei Er]. rewrite Ei, Er. reflexivity. }
+  rewrite Hmin.
+  destruct (s_stack s) as [|[[cf m] a] st] eqn:Es;
+    [inversion Hrest; subst | inversion Hrest as [|e ? rest' ? He Hrest']; subst].
+  - cbn [length app]. rewrite Nat.leb_refl. reflexivity.
+  - cbn [length].
+    match goal with |- context [Nat.leb ?x ?y] => destruct (Nat.leb x y) eqn:El end;
+      [apply Nat.leb_le in El; lia|].
+    exists e, (rest' ++ bottom). split; [reflexivity|].
+    intros start. eexists. split; [unfold with_top; cbn [with_stack c_stack]; reflexivity|].
+    intros loc ->.
+    apply guard_ok_iff in Hg. destruct Hg as (Hg1 & Hg2).
+    destruct He as (E1 & E2 & E3 & E4 & E5 & E6). cbn [fst snd] in *.
+    assert (Hg' : guard c ini {| s_loc := start; s_cfa := cf; s_rules := m; s_args := a; s_stack := st |} = Ok tt).
+    { apply guard_ok_iff. split; [|exact E6].
+      eapply over_mono; [|exact Hg1]. unfold stack_occ. rewrite Es. cbn [s_stack length]. lia. }
+    split; [|exact Hg'].
+    exists (set_start start e), rest', bottom. split; [|reflexivity].
+    unfold Rcore. cbn [t_caf t_daf t_asize t_ctx with_ctx with_stack c_stack c_init c_initial_rule s_cfa s_rules s_args s_stack].
+    refine (conj H1 (conj H2 (conj H3 (conj H4 (conj eq_refl (conj _ (conj Hrest' (conj Hb Hg')))))))).
+    unfold entry_rel. cbn [fst snd set_start r_cfa r_args r_regs]. repeat split; auto.
+Qed.
+End Sim.
